@@ -365,6 +365,13 @@ def execute_geo(case):
         out.update(status="ctor-exception", exc=exc, trace=traceback.format_exc()[-900:])
         return out
     out["shuffler"] = None if gi.shuffler is None else np.asarray(gi.shuffler).tolist()
+    if cont == "plain" and not case.get("self_query") and isinstance(blat, np.ndarray) \
+            and blat.flags.writeable and len(case["blat"]) % 2 == 1:
+        # call history: the build arrays are the caller's read buffer and are refilled right after the
+        # index was built - the index answers for the points it was built from
+        out["refilled"] = True
+        blat[...] = 0.5 * blat[::-1].copy()
+        blon[...] = 0.5 * blon[::-1].copy()
     qkw = {}
     if case.get("rd") is False:
         qkw["return_distance"] = False
@@ -561,6 +568,8 @@ def check_geo(rec, case, fam=None):
         keys.append(key)
         rec.violation(key, case, detail)
 
+    if out.get("refilled"):
+        rec.count("geo.build_arrays_refilled_after_construction")
     if out.get("history"):
         verdict, detail = out["history"]
         rec.count("history.reuse_" + verdict.replace("/", ""))
